@@ -222,6 +222,12 @@ func CheckPassParam(ctx *Task, expr *ast.CallExpr, params []*Param) *errchain.Pl
 			varbParam = true
 		}
 	}
+	if !varbParam && len(expr.Param) > len(params) {
+		return NewRunError(ctx, fmt.Sprintf(
+			"too many arguments: %d passed, %d declared", len(expr.Param), len(params)),
+			expr.NamePos)
+	}
+
 	for ePIndex, p := range expr.Param {
 		if p.NodeType == ast.TypeAssignmentExpr { // named param
 			if varbParam {
